@@ -153,6 +153,9 @@ def step (ds : DS) (ws : List String) : DS × String :=
       let (s1, w1, acts, res) := eventDuringRefresh s (toWorld ds.dw) ev fuel budget
       let rs := match res with | .ok => "ok" | .failed => "failed" | .noTarget => "notarget"
       ({ dw := fromWorld ds.dw w1, st := some s1 }, s!"{rs} acts={showActs acts} {showSt s1}")
+  | "!foreign" :: r =>
+    -- the specification: an event of another master set never changes where primary traffic goes
+    (ds, if field r "before" == field r "after" then "ok" else "bad")
   | "!evlost" :: r =>
     -- the specification: after a refresh and a +switch-master / +reboot event for our master set have both
     -- finished, primary traffic goes over a live connection to the address the event named
